@@ -12,7 +12,7 @@ CHECKS = {
          "All 8192 AC13 codes in DF0/4/16/20 and all 4096 AC12 codes in each of the 13 type codes under DF17 and DF18 are decoded with random surroundings and compared with a reference written from Annex 10; the code space is covered completely, the surroundings are sampled; every 13-bit code is also decoded right after each of its one-bit neighbours, and the first altitude codes of fresh processes are decoded by eight threads at once.",
          "Trusts refdec::ac13_ft/ac12_ft/gillham_ft; an altitude of exactly 0 ft may be shown as none or 0.", "3 C06"),
  "C07": ("exploration", "exhaustive 2^22 / 2^11 / 2^8 field sweeps vs. reference decoder and atan2/hypot velocity model",
-         "Every direction/component word of both ground-speed subtypes, every vertical-rate word in every subtype, every GNSS-difference word and every NACv/flag word is decoded and compared field by field; calculate() is compared with an independent model, also in the alloc-only build; one long-lived tracker record receives a walk of 60 000 (1.5 million) reports that differ from their predecessor in one field group and must show the latest derived velocity.",
+         "Every direction/component word of both ground-speed subtypes, every vertical-rate word in every subtype, every GNSS-difference word and every NACv/flag word is decoded and compared field by field; calculate() is compared with an independent model, also in the alloc-only build; one frame in 32 through a serde round trip and against the reference text renderer; one long-lived tracker record receives a walk of 60 000 (1.5 million) reports that differ from their predecessor in one field group and must show the latest derived velocity.",
          "Trusts refdec::velocity_calc; naming polarity of the vertical-rate source bit follows the repository's pinned tests and is not asserted.", "3 C07"),
  "C08": ("exploration", "position x code enumeration + random strings vs. Annex 10 character table (differential)",
          "Every 6-bit code at every one of the 8 positions, every ordered pair of positions with 16 representative codes, every pair of codes at adjacent positions, every space/non-space pattern, and random strings, in all four carriers; the report shows the decoded call sign and category; one long-lived tracker record shows the latest identification and stays tracked through it, also when position reports (accepted or refused by the range check) follow.",
@@ -27,22 +27,22 @@ CHECKS = {
 
 CHECKS.update({
  "C01": ("exploration", "random + structured byte strings, field sweeps, pair enumeration; crash / allocation oracle (catch_unwind, counting allocator, watchdog)",
-         "Every buffer length 0..=32 with uniform and structured contents, every value of every narrow ME field, every 13-bit code, all ordered pairs of a pool of position reports; pattern-fill payloads (every 6-bit code / byte value repeated) under every type and BDS code; each accepted frame is rendered, its velocity computed, paired in both orders and fed to a long-lived tracker with hostile receiver positions/ranges; one aircraft heard 150 000 times and one on a 20 000-report flight. The harness installs a log subscriber that enables every call site (as the clients do), so the arguments of the libraries' log statements are evaluated. No panic, bounded allocation per decode+render; a suspected hang is re-run three times under a CPU-time limit with its tracker context.",
+         "Every buffer length 0..=32 with uniform and structured contents, every value of every narrow ME field, every 13-bit code, all ordered pairs of a pool of position reports; pattern-fill payloads (every 6-bit code / byte value repeated) under every type and BDS code; each accepted frame is rendered, decoded again through from_reader inside a longer stream (one in four), its velocity computed, paired in both orders and fed to a long-lived tracker with hostile receiver positions/ranges; one aircraft heard 150 000 times and one on a 20 000-report flight. The harness installs a log subscriber that enables every call site (as the clients do), so the arguments of the libraries' log statements are evaluated. No panic, bounded allocation per decode+render; a suspected hang is re-run three times under a CPU-time limit with its tracker context.",
          "Absence of a crash on 2^112 frames cannot be established; a hang is reported as inconclusive (exit 2) by a 20 s watchdog.", "3 C01"),
  "C02": ("exploration", "exhaustive DF x length grid + exhaustive type-31 reserved/version grid + generated frames; acceptance predicate + prefix metamorphic relation",
-         "All 32 DF codes at all lengths 0..=32, the complete subtype x version x reserved-group grid of type 31, structured frames truncated / exact / over-long; accepted iff the statement says so, right variant, checksum over exactly the frame, tail bytes without influence.",
+         "All 32 DF codes at all lengths 0..=32, the complete subtype x version x reserved-group grid of type 31, structured frames truncated / exact / over-long; accepted iff the statement says so, right variant, checksum over exactly the frame, tail bytes without influence; uniform all-zero / all-one buffers in every cell; from_reader on a reader positioned inside a stream gives the same verdict, variant and checksum.",
          "ME 13-14 != 0 in a surface operational status is left open (DO-260B reserves, library ignores).", "3 C02"),
  "C03": ("exploration", "differential vs bitwise polynomial division; constructed-parity frames; exhaustive error-pattern enumeration on base frames",
          "crc == remainder mod 0x1FFF409 on random, single-byte and double-byte frames; the three meanings on constructed frames (all 128 II codes); all error patterns of weight <= 3 (<= 5 thorough) and all bursts <= 24 bits with bounded interior weight (all 2^22 interiors thorough) on 10 valid base frames never give checksum 0; the checksum of a sample also in the alloc-only build (child process), through a serialize/deserialize round trip, and through a reader with one transient Interrupted before each of its first 18 read calls; no checksum for a buffer shorter than the frame; a format of which no constructed frame is reported at all is a violation.",
          "Error detection is enumerated over patterns, not over all base frames; patterns that turn the frame into a 56-bit or rejected frame are excluded.", "3 C03"),
  "C05": ("exploration", "round trip through a reference CPR encoder (inverse), exact integer reference decoder (differential), exhaustive zone-latitude probes",
-         "True positions over the whole sphere (poles, equator, antimeridian, every NL transition) with displacements <= 3 NM in both orders decode to within the quantisation error and re-encode to the second report; raw pairs are rejected when inconsistent; every reachable zone latitude of both parities is probed for its longitude-zone count; pairs decoded as the first act of a fresh process (equator, poles, grid origins, transitions) must give the warm answer.",
+         "True positions over the whole sphere (poles, equator, antimeridian, every NL transition) with displacements <= 3 NM in both orders decode to within the quantisation error and re-encode to the second report; raw pairs are rejected when inconsistent; every reachable zone latitude of both parities is probed for its longitude-zone count; a sample of pairings also computed by the alloc-only build (child process); the two reports of a pair differ in type code, time bit and altitude; pairs decoded as the first act of a fresh process (equator, poles, grid origins, transitions) must give the warm answer.",
          "NL reference = closed formula; recovered latitudes within 1e-7 deg of a transition are don't-care.", "3 C05"),
  "C11": ("exploration", "generated frames vs. independent template renderer (differential), validated against the 45 pinned strings of the test suite",
          "Every format/type/subtype with the renderer's branch conditions targeted; Display must equal the reference templates instantiated with the decoded frame's own fields; non-empty except DF19; every value of every printed numeric field is swept (all 1024 x 1024 velocity component pairs, rates, altitude and identity codes, target-state words); a sample is rendered by the alloc-only build (child process) and compared with the same template.",
          "The templates are those pinned by the README/test suite as re-implemented in render.rs; field correctness is C04-C10.", "3 C11"),
  "C12": ("exploration", "proptest histories (vec of ops + interpreter) vs reference tracker model; isolation metamorphic relation",
-         "Histories of DF17/DF18 squitters of every payload kind (one in 16 with a flipped parity bit: decoded, checksum not zero) from 1-6 interleaved aircraft, non-squitter formats with the same addresses, waits and expiry; added flag, key set, message counts compared after every op; record(H) == record(H restricted to the aircraft); crowds of 700-2100 (70 000) distinct addresses incl. blocks of consecutive ones; one aircraft heard 90 000 (1.3 million) times; thin traffic in real time (an aircraft heard every 100 ms with expiry after every frame is never removed or re-added); generated histories interpreted by the alloc-only build (child process).",
+         "Histories of DF17/DF18 squitters of every payload kind (one in 16 with a flipped parity bit: decoded, checksum not zero) from 1-6 interleaved aircraft, non-squitter formats with the same addresses, waits (0.5 s to 2 h) and expiry; added flag, key set, message counts compared after every op; record(H) == record(H restricted to the aircraft); crowds of 700-2100 (70 000) distinct addresses incl. blocks of consecutive ones; one aircraft heard 90 000 (1.3 million) times; thin traffic in real time (an aircraft heard every 100 ms with expiry after every frame is never removed or re-added); generated histories interpreted by the alloc-only build (child process).",
          "Frames are real bytes decoded by the library; histories up to 40 ops.", "4 C12"),
  "C13": ("exploration", "proptest histories vs reference model with reference great-circle distance and CPR encoder",
          "Consistent flights, jumps around 100 km, positions at 0.99/1.01 x range, garbage CPR, repeated reports (also bit-identical ones), eleven receiver sites (poles, antimeridian, equator, two with the same latitude, three within 100-700 km of the first), range limits incl. 40 075 km and infinity, the receiver moving within a history (directed: by 100 km and by exactly one odd longitude zone while an aircraft is tracked); publish/clear decision, stored reports (incl. altitude), distance and the published position list compared after every position report; deterministic flights across each of the 58 zone transitions in both hemispheres; crowds of 900 / 2500 (40 000) positioned aircraft.",
@@ -54,7 +54,7 @@ CHECKS.update({
          "Advance/Prune ops with ages in 0.5 s steps on both sides of T (incl. T = 0 and T near u64::MAX); surviving key set, untouched survivors (also with a track of thousands of entries), re-added aircraft start empty (no call sign, position, track or velocity), no re-add without expiry; thin traffic in real time; crowds of 300-3000 (70 000) aircraft of which every second one expires in one call.",
          "Uses the verif_hooks feature (Airplanes::verif_backdate); real elapsed time per case must stay below 0.3 s or the case is inconclusive.", "4 C15"),
  "C19": ("fault_enumeration", "exhaustive injection of transient read errors and short reads over the recorded call trace + proptest schedules; slice decode differential",
-         "For frames of every accepted class and fragment sizes 64/1/2: 1-3 consecutive Interrupted before every read call and all pairs of injection points; runs of 70 and 300 Interrupted; random schedules; from_reader == from_bytes, repeatability, captures of several frames through one reader (a decode that does not come back is saved by a watchdog and confirmed by bounded re-runs), the same result when a frame is decoded first in a fresh process or after other frames in another fresh process, and the same result from the alloc-only build (child process) reading fragments of 1-64 bytes with Interrupted at each of its first 14 read calls.",
+         "For frames of every accepted class and fragment sizes 64/1/2: 1-3 consecutive Interrupted before every read call and all pairs of injection points; runs of 70 and 300 Interrupted; random schedules; from_reader == from_bytes, repeatability, captures of several frames through one reader (a decode that does not come back is saved by a watchdog and confirmed by bounded re-runs), the same result when a frame is decoded first in a fresh process or after other frames in another fresh process, the same result right after a copy of the frame with one early bit flipped, and the same result from the alloc-only build (child process) reading fragments of 1-64 bytes with Interrupted at each of its first 14 read calls.",
          "The scripted reader consumes nothing on Interrupted (std semantics); hard I/O errors are out of scope.", "3 C19"),
  "C20": ("exploration", "differential std process vs alloc-only child process on generated frames and histories; serde JSON round trip",
          "Byte-identical transcripts (decode, render, velocity, pairing, full tracker dump after every step) between the std build and the libraries built with default-features=false, features=[alloc]; serde round trip of frames and tracker states incl. continued behaviour; constructed exact ties of the CPR zone-index rounding; every frame also through the alloc-only build's reader path with fragments of 1-14 bytes and transient Interrupted errors; addresses 000000 / ffffff and two addresses differing in the last octet in the histories.",
@@ -69,7 +69,7 @@ CHECKS.update({
          "After every step the radar process must be alive without a panic; quit (q / Ctrl-C, also while waiting for the connection) must exit 0 with termios restored, mouse reporting off and the cursor visible; invalid option values (incl. arguments that are not UTF-8) must be clap usage errors. Swept on every run: the invalid-value grammar, every listed kind of line that is not a frame on every tab, a feed that never pauses (other protocol, all-zero frames, noise, frames) and a reconnected feed (quiet or busy) followed by keys, a resize and every way of quitting, every pair of selection/view keys as one burst on every tab, every listed --scale and receiver position (NaN, inf, poles), expiry on every tab, 400 aircraft, a scrolled table whose aircraft all expire at once, 9-21 zoom steps with tracked aircraft, a silent / talking gpsd daemon while quitting, 150-key bursts on the waiting screen.",
          "Each step waits 120 ms for the event loop; the terminal is a pty driven by a minimal VT emulator, not a real terminal emulator.", "5 C17"),
  "C18": ("exploration", "Hypothesis-generated scenarios; screen (VT-emulated) vs tracker state computed by the real library (differential); map metamorphic relations (direction, proportionality, zoom, pan, reset)",
-         "Airplanes tab rows and titles equal the tracker's records, Stats totals equal added events / peak count, markers lie on the correct side of the centre at proportional offsets (self-calibrated), view controls leave the tables unchanged and reset restores the map cell for cell; centring the view on an aircraft puts its marker at the canvas centre at every zoom level; aircraft heard via DF18 or first heard with a status / target-state squitter; receiver position delivered by a gpsd server that also sends GST / SKY / no-fix reports; 'newly added' judged by the tracked set; expiry scenarios judged on radar's own logged processing times incl. a silent phase after which the screen must be empty without any key; thorough: a 10 050-frame aircraft.",
+         "Airplanes tab rows and titles equal the tracker's records, Stats totals equal added events / peak count, markers lie on the correct side of the centre at proportional offsets (self-calibrated), view controls leave the tables unchanged and reset restores the map cell for cell; centring the view on an aircraft puts its marker at the canvas centre at every zoom level (also when a row without a position sorts first); receivers beyond 85 degrees of latitude; aircraft heard via DF18 or first heard with a status / target-state squitter; receiver position delivered by a gpsd server that also sends GST / SKY / no-fix reports; 'newly added' judged by the tracked set; expiry scenarios judged on radar's own logged processing times incl. a silent phase after which the screen must be empty without any key; thorough: a 10 050-frame aircraft.",
          "Expected table content is produced by rsadsb_common (helper) from the same frames; marker cells are recognised by colour with --disable-heading/--disable-track and attributed by place on a settled snapshot; screen/tracker differences count only if they persist for 5 s.", "5 C18"),
 })
 NOT_YET = {}
